@@ -117,7 +117,7 @@ theorem greedyNaN_spec (k : Nat) (nb : List Nat) (hne : nb ≠ []) (hpos : ∀ x
 
 section
 variable {α : Type} [Add α] [Sub α] [Mul α] [Div α] [OfNat α 0] [NatCast α]
-  [LT α] [DecidableLT α] [DecidableEq α]
+  [LT α] [LE α] [DecidableLT α] [DecidableLE α]
 
 /-- `nhaploblk_chrom` refuses exactly the requests below the chromosome count -/
 theorem nhaploblkChromOfLen_error_iff (n : Nat) (gl : List α) :
